@@ -350,4 +350,25 @@ def parseAll (ext : Ext) (fcbSup : Bool) (segs : List Seg) (bin : Bytes) : PyRes
     | some r => .ok r
     | none => .error .spsdk
 
+/-! ### parse without an explicit memory type (`_parse_all` with `mem_type=None`) -/
+
+/-- first element (with its index) on which `f` answers -/
+def firstSomeIdx {α β} (f : α → Option β) : List α → Nat → Option (Nat × β)
+  | [], _ => none
+  | x :: xs, i => match f x with
+    | some y => some (i, y)
+    | none => firstSomeIdx f xs (i + 1)
+
+/-- `BootableImage.parse(binary, family, revision=…)`: the memory types of the family in database order.  First loop: the
+    full-image trial of every memory type (all accepted ones are collected, the first one is returned); only when none
+    accepts, second loop: every memory type's init candidates in table order.  Result: (index of the memory type, init
+    offset, what was found). -/
+def parseAny (ext : Ext) (fcbSup : Bool) (descs : List (List Seg)) (bin : Bytes) : PyRes (Nat × Nat × List Found) :=
+  match firstSomeIdx (fun segs => trial ext fcbSup segs bin 0) descs 0 with
+  | some (i, r) => .ok (i, r.1, r.2)
+  | none =>
+    match firstSomeIdx (fun segs => firstSome (trial ext fcbSup segs bin) (initCandidates segs)) descs 0 with
+    | some (i, r) => .ok (i, r.1, r.2)
+    | none => .error .spsdk
+
 end SpsdkVerif.Bimg
